@@ -1,10 +1,13 @@
 #!/bin/bash
-# Full regression of the seeded changes against the quick tier: every seed against the check of the
-# property it breaks plus the checks that caught it before.  Writes out/seedrun_full.txt.
+# Regression of the seeded changes against the quick tier: every seed against the check of the property it breaks
+# plus the checks that caught it before.   harness/seedall.sh [glob]   (default: all; e.g. '*_r2_*')
+# Needs /repo to itself.  Writes out/seedrun_<tag>.txt.
 cd "$(dirname "$0")/.."
-out=out/seedrun_full.txt; : > $out
+pat=${1:-[Co]*}
+tag=$(echo "$pat" | tr -cd 'A-Za-z0-9_')
+out=out/seedrun_${tag:-all}.txt; : > $out
 declare -A extra=( [C01_2]="C07" [C02_1]="C03" [C03_2]="C02" [C04_2]="C14" [C05_2]="C13" [C07_1]="C01" [C10_2]="C11" [C13_1]="C02" [C13_2]="C02" [C13_3]="C02" [C17_1]="C05" [own_C01_dropped_conj_ps_matrix]="C07" )
-for d in seeded/[Co]*/; do
+for d in seeded/$pat/; do
   s=$(basename $d)
   case $s in own_*) p=$(echo $s | cut -d_ -f2);; *) p=${s%%_*};; esac
   echo "=== $s" >> $out
